@@ -40,7 +40,7 @@ def cases(rng, budget, widx, nworkers, tier):
     while True:
         ka, kb = PAIRS[i % len(PAIRS)]
         i += 1
-        (a, b), label = gen.flat_pair(rng, ka, kb)
+        (a, b), label = gen.gen_pair(rng, ka, kb)
         if ka == "L" and kb == "L" and rng.random() < 0.15:
             # coincident lines in another representation
             a = gen.rand_flat(rng, "L")
